@@ -47,7 +47,7 @@ var big256 = "115792089237316195423570985008687907853269984665640564039457584007
 // Run executes the enumeration.
 func Run(r *ev.Run, tier string) (evals, nontrivial int64) {
 	w := world.NewWorld()
-	c := w.Add("teleport_9000-10", world.Options{Accounts: []string{"u1", "rel"}})
+	c := w.Add("teleport_9000-10", world.Options{Accounts: []string{"u1", "rel"}, ExtraCoins: map[string]sdk.Coins{"u1": sdk.NewCoins(sdk.NewInt64Coin("acoin", 100))}})
 	w.Block(c)
 	u1 := c.Accounts["u1"]
 	voucher := transfertypes.ParseDenomTrace(transfertypes.GetDenomPrefix(port, channel) + "uatom").IBCDenom()
@@ -118,6 +118,22 @@ func Run(r *ev.Run, tier string) (evals, nontrivial int64) {
 	states := []state{
 		{"no pair", mk(func(ctx sdk.Context) {})},
 		{"pair enabled", mk(register)},
+		{"pair enabled", mk(func(ctx sdk.Context) {
+			// the voucher is the SECOND denomination of a pair whose first denomination the receiver also holds
+			ack := inner.OnRecvPacket(ctx, mkPacket(packetCase{"uatom", "5", "valid"}, 1), c.Accounts["rel"].Acc)
+			if !ack.Success() {
+				panic("setup receive failed")
+			}
+			p, err := c.App.AggregateKeeper.RegisterCoin(ctx, c13.Meta("acoin", "acoin"))
+			if err != nil {
+				panic(err)
+			}
+			m := c13.Meta(voucher, "uatom channel-0")
+			m.Symbol = "ibcATOM"
+			if _, err := c.App.AggregateKeeper.AddCoin(ctx, m, p.ERC20Address); err != nil {
+				panic(err)
+			}
+		})},
 		{"pair disabled", mk(func(ctx sdk.Context) {
 			register(ctx)
 			if _, err := c.App.AggregateKeeper.ToggleRelay(ctx, voucher); err != nil {
